@@ -197,6 +197,83 @@ func Eval(c Case) (*core.Fail, bool) {
 	return evalTree(c)
 }
 
+// EnumTrees enumerates the fork histories of the pipeline half: every arrival sequence of n <= maxN blocks, then the
+// 2-branch ladders up to n2 blocks and the 3-branch ladders up to n3 blocks. Also used by C11 (size oracle).
+func EnumTrees(maxN, n2, n3 int, emit func(Case) bool) bool {
+	for n := 1; n <= maxN; n++ {
+		parents := make([]int, n)
+		var rec func(i int) bool
+		rec = func(i int) bool {
+			if i == n {
+				cp := append([]int{}, parents...)
+				lags := []int{0}
+				modes := []bool{false}
+				if n <= maxN-1 {
+					lags = []int{0, 2, 1}
+					modes = []bool{false, true}
+				}
+				for _, lag := range lags {
+					for _, prod := range modes {
+						if !emit(Case{Kind: "tree", Parents: cp, LibLag: lag, Prod: prod}) {
+							return false
+						}
+					}
+				}
+				return true
+			}
+			for p := 0; p <= i; p++ {
+				parents[i] = p
+				if !rec(i + 1) {
+					return false
+				}
+			}
+			return true
+		}
+		if !rec(0) {
+			return false
+		}
+	}
+	// competing-branch ladders: every block extends the tip of one of k branches rooted at genesis (k^n sequences):
+	// deep reorgs and repeated overtakes far beyond the n! bound
+	ladder := func(k, n int) bool {
+		choice := make([]int, n)
+		var rec func(i int) bool
+		rec = func(i int) bool {
+			if i == n {
+				tips := make([]int, k) // index of the tip block of each branch (0 = genesis)
+				parents := make([]int, n)
+				for j, b := range choice {
+					parents[j] = tips[b]
+					tips[b] = j + 1
+				}
+				return emit(Case{Kind: "tree", Parents: parents, LibLag: 0})
+			}
+			for b := 0; b < k; b++ {
+				if i == 0 && b > 0 {
+					break // symmetry: the first block opens branch 0
+				}
+				choice[i] = b
+				if !rec(i + 1) {
+					return false
+				}
+			}
+			return true
+		}
+		return rec(0)
+	}
+	for n := maxN + 1; n <= n2; n++ {
+		if !ladder(2, n) {
+			return false
+		}
+	}
+	for n := maxN + 1; n <= n3; n++ {
+		if !ladder(3, n) {
+			return false
+		}
+	}
+	return true
+}
+
 func Run(ctx *core.Ctx) int {
 	ctx.Level = "exploration"
 	ctx.Parallel = 32
@@ -242,83 +319,11 @@ func Run(ctx *core.Ctx) int {
 		}
 	}
 	// ---- pipeline half (E3): every arrival sequence through the real fork resolver and the real pipeline
-	st := core.ParallelEnum(ctx, func(emit func(Case) bool) {
-		for n := 1; n <= maxN; n++ {
-			parents := make([]int, n)
-			var rec func(i int) bool
-			rec = func(i int) bool {
-				if i == n {
-					cp := append([]int{}, parents...)
-					lags := []int{0}
-					modes := []bool{false}
-					if n <= maxN-1 {
-						lags = []int{0, 2, 1}
-						modes = []bool{false, true}
-					}
-					for _, lag := range lags {
-						for _, prod := range modes {
-							if !emit(Case{Kind: "tree", Parents: cp, LibLag: lag, Prod: prod}) {
-								return false
-							}
-						}
-					}
-					return true
-				}
-				for p := 0; p <= i; p++ {
-					parents[i] = p
-					if !rec(i + 1) {
-						return false
-					}
-				}
-				return true
-			}
-			if !rec(0) {
-				return
-			}
-		}
-		// competing-branch ladders: every block extends the tip of one of k branches rooted at genesis (k^n sequences):
-		// deep reorgs and repeated overtakes far beyond the n! bound
-		ladder := func(k, n int) bool {
-			choice := make([]int, n)
-			var rec func(i int) bool
-			rec = func(i int) bool {
-				if i == n {
-					tips := make([]int, k) // index of the tip block of each branch (0 = genesis)
-					parents := make([]int, n)
-					for j, b := range choice {
-						parents[j] = tips[b]
-						tips[b] = j + 1
-					}
-					return emit(Case{Kind: "tree", Parents: parents, LibLag: 0})
-				}
-				for b := 0; b < k; b++ {
-					if i == 0 && b > 0 {
-						break // symmetry: the first block opens branch 0
-					}
-					choice[i] = b
-					if !rec(i + 1) {
-						return false
-					}
-				}
-				return true
-			}
-			return rec(0)
-		}
-		n2, n3 := 11, 8
-		if ctx.Thorough() {
-			n2, n3 = 14, 10
-		}
-		for n := maxN + 1; n <= n2; n++ {
-			if !ladder(2, n) {
-				return
-			}
-		}
-		for n := maxN + 1; n <= n3; n++ {
-			if !ladder(3, n) {
-				return
-			}
-		}
-	}, Eval)
+	n2, n3 := 11, 8
+	if ctx.Thorough() {
+		n2, n3 = 14, 10
+	}
+	st := core.ParallelEnum(ctx, func(emit func(Case) bool) { EnumTrees(maxN, n2, n3, emit) }, Eval)
 	ctx.Sample(Case{Kind: "tree", Parents: []int{0, 0, 2, 1, 4, 3, 6}, LibLag: 0})
 	ctx.Cov["evaluations"] = st.Evaluations + int64(sTrans)
 	ctx.Cov["distinct_nontrivial"] = st.NonTrivial + int64(sUndos)
